@@ -50,7 +50,14 @@ func (c *Calcium) doReallocOnNode(ctx context.Context, node *types.Node, workloa
 			logger.Debugf(ctx, "realloc workload %+v, resource args %+v, engine args %+v", workload.ID, litter.Sdump(resources), litter.Sdump(engineParams))
 			workload.EngineParams = engineParams
 			workload.Resources = resources
-			return c.store.UpdateWorkload(ctx, workload)
+			if err := c.store.UpdateWorkload(ctx, workload); err != nil {
+				// the rollback step is skipped for a failure of this step: give the resources back here
+				if e := c.rmgr.RollbackRealloc(ctx, workload.Nodename, deltaResources); e != nil {
+					logger.Errorf(ctx, e, "failed to rollback workload %+v, resource args %+v", workload.ID, litter.Sdump(resources))
+				}
+				return err
+			}
+			return nil
 		},
 		// then: update virtualization
 		func(ctx context.Context) error {
